@@ -1,4 +1,8 @@
 import Driver.Loop
+import AlphaG.Driver.C02
+import AlphaG.Driver.C03
+import AlphaG.Driver.C04
+import AlphaG.Driver.C05
 import AlphaG.Driver.C06
 import AlphaG.Driver.C07
 import AlphaG.Driver.C16
@@ -9,6 +13,10 @@ Full model driver: every handler of `AlphaG/Driver/*.lean`. Handlers return `non
 commands they do not own.
 -/
 def main : IO Unit := Driver.run [
+  AlphaG.Driver.C02.handle,
+  AlphaG.Driver.C03.handle,
+  AlphaG.Driver.C04.handle,
+  AlphaG.Driver.C05.handle,
   AlphaG.Driver.C06.handle,
   AlphaG.Driver.C07.handle,
   AlphaG.Driver.C16.handle,
